@@ -1347,5 +1347,160 @@ theorem curSet_cursors [DecidableEq K] (st : StrictTotal gt) (d : Db K V) (inv :
   simp only [curSet, getElem?_mid hl, hr, set_mid hl]
   simp
 
+/-! ### histories of mutations with a tracked cursor -/
+
+/-- one mutating call, or a repositioning of some cursor (`move`: the result of any
+    `iwkv_cursor_to / to_key` of cursor `c`, whatever it is) -/
+inductive Mut (K V : Type) where
+  | put (k : K) (v : V) (lvl : Nat)
+  | del (k : K)
+  | cset (c : Nat) (v : V)
+  | cdel (c : Nat)
+  | move (c : Nat) (q : CPos)
+
+/-- the record under cursor `c` -/
+def recAt (d : Db K V) (c : Nat) : Option (K × V) := (curPos d c).bind (curRec d)
+
+def keyAt (d : Db K V) (c : Nat) : List K := match recAt d c with | some r => [r.1] | none => []
+
+def stepMut (gt : K → K → Bool) (d : Db K V) : Mut K V → Db K V
+  | .put k v lvl => (put gt d k v false lvl).1
+  | .del k => (del gt d k).1
+  | .cset c v => match curPos d c with | some p => curSet d p v | none => d
+  | .cdel c => match curPos d c with | some p => curDel d p | none => d
+  | .move c q => setCur d c q
+
+/-- keys the step removes -/
+def mutDel (d : Db K V) : Mut K V → List K
+  | .del k => [k]
+  | .cdel c => keyAt d c
+  | _ => []
+
+/-- keys the step may insert -/
+def mutPut : Mut K V → List K
+  | .put k _ _ => [k]
+  | _ => []
+
+/-- keys whose record the step inserts, rewrites or removes -/
+def mutTouch (d : Db K V) : Mut K V → List K
+  | .put k _ _ => [k]
+  | .del k => [k]
+  | .cset c _ => keyAt d c
+  | .cdel c => keyAt d c
+  | .move _ _ => []
+
+def runMut (gt : K → K → Bool) : Db K V → List (Mut K V) → Db K V
+  | d, [] => d
+  | d, m :: ms => runMut gt (stepMut gt d m) ms
+
+def runDel (gt : K → K → Bool) : Db K V → List (Mut K V) → List K
+  | _, [] => []
+  | d, m :: ms => mutDel d m ++ runDel gt (stepMut gt d m) ms
+
+def runPut : List (Mut K V) → List K
+  | [] => []
+  | m :: ms => mutPut m ++ runPut ms
+
+def runTouch (gt : K → K → Bool) : Db K V → List (Mut K V) → List K
+  | _, [] => []
+  | d, m :: ms => mutTouch d m ++ runTouch gt (stepMut gt d m) ms
+
+def notIn [DecidableEq K] (D : List K) : K → Bool := fun x => decide (x ∉ D)
+def keyNotIn [DecidableEq K] (D : List K) : K × V → Bool := fun r => decide (r.1 ∉ D)
+
+/-- keys removed by the history and not put again afterwards -/
+def runDead [DecidableEq K] (gt : K → K → Bool) : Db K V → List (Mut K V) → List K
+  | _, [] => []
+  | d, m :: ms => (mutDel d m).filter (notIn (runPut ms)) ++ runDead gt (stepMut gt d m) ms
+
+/-- how what lies ahead of the tracked cursor (`A` before, `A1` after) relates, given the keys
+    removed (`D`), possibly inserted (`Pu`) and touched (`T`) in between -/
+structure StepFacts [DecidableEq K] (A A1 : List (K × V)) (D Pu T : List K) : Prop where
+  /-- every record ahead whose key was not removed is still ahead, in the same relative order -/
+  surv : ((A.map (·.1)).filter (notIn D)).Sublist (A1.map (·.1))
+  /-- whatever is ahead afterwards was ahead before, in the same relative order, or was inserted -/
+  orig : ((A1.map (·.1)).filter (notIn Pu)).Sublist (A.map (·.1))
+  /-- the untouched records ahead are exactly the same, values included -/
+  same : A1.filter (keyNotIn T) = A.filter (keyNotIn T)
+
+section Facts
+variable [DecidableEq K]
+
+theorem keyNe_eq (k : K) : (keyNe k : K × V → Bool) = keyNotIn [k] := by
+  funext r; simp [keyNe, keyNotIn]
+
+theorem map_fst_filter (D : List K) (A : List (K × V)) :
+    (A.filter (keyNotIn D)).map (·.1) = (A.map (·.1)).filter (notIn D) := by
+  rw [List.filter_map]; rfl
+
+theorem notIn_nil : (notIn ([] : List K)) = fun _ => true := by funext x; simp [notIn]
+theorem keyNotIn_nil : (keyNotIn ([] : List K) : K × V → Bool) = fun _ => true := by funext x; simp [keyNotIn]
+
+theorem filter_notIn_append (D1 D2 : List K) (l : List K) :
+    l.filter (notIn (D1 ++ D2)) = (l.filter (notIn D1)).filter (notIn D2) := by
+  rw [List.filter_filter]; congr 1; funext x; simp [notIn, not_or, Bool.and_comm]
+
+theorem filter_keyNotIn_append (D1 D2 : List K) (l : List (K × V)) :
+    l.filter (keyNotIn (D1 ++ D2)) = (l.filter (keyNotIn D1)).filter (keyNotIn D2) := by
+  rw [List.filter_filter]; congr 1; funext x; simp [keyNotIn, not_or, Bool.and_comm]
+
+theorem filter_keyNotIn_comm (D1 D2 : List K) (l : List (K × V)) :
+    (l.filter (keyNotIn D1)).filter (keyNotIn D2) = (l.filter (keyNotIn D2)).filter (keyNotIn D1) := by
+  rw [List.filter_filter, List.filter_filter]; congr 1; funext x; simp [Bool.and_comm]
+
+theorem facts_nop (A : List (K × V)) : StepFacts A A [] [] [] :=
+  ⟨List.filter_sublist, List.filter_sublist, rfl⟩
+
+theorem facts_del (A : List (K × V)) (k : K) : StepFacts A (A.filter (keyNe k)) [k] [] [k] := by
+  rw [keyNe_eq]
+  refine ⟨?_, ?_, ?_⟩
+  · rw [map_fst_filter]; exact List.Sublist.refl _
+  · exact List.filter_sublist.trans (List.filter_sublist.map _)
+  · rw [List.filter_filter]; congr 1; funext x; simp
+
+theorem facts_ins {A A1 : List (K × V)} {k : K} (h : A1.filter (keyNe k) = A) (hk : ∀ r ∈ A, r.1 ≠ k) :
+    StepFacts A A1 [] [k] [k] := by
+  rw [keyNe_eq] at h
+  refine ⟨?_, ?_, ?_⟩
+  · refine List.filter_sublist.trans ?_
+    rw [← h]; exact List.filter_sublist.map _
+  · rw [← map_fst_filter, h]; exact List.Sublist.refl _
+  · rw [h]; symm
+    exact List.filter_eq_self.2 fun r hr => by simpa [keyNotIn] using hk r hr
+
+theorem map_fst_setVal (k : K) (v : V) (A : List (K × V)) : (A.map (setVal k v)).map (·.1) = A.map (·.1) := by
+  rw [List.map_map]; apply List.map_congr_left
+  intro r _; simp only [Function.comp, setVal]; split <;> simp_all
+
+theorem filter_setVal (k : K) (v : V) (A : List (K × V)) :
+    (A.map (setVal k v)).filter (keyNotIn [k]) = A.filter (keyNotIn [k]) := by
+  induction A with
+  | nil => rfl
+  | cons x tl ih =>
+    by_cases hx : x.1 = k
+    · simp [setVal, keyNotIn, hx]
+      simpa [keyNotIn] using ih
+    · simp [setVal, keyNotIn, hx]
+      simpa [keyNotIn] using ih
+
+theorem facts_upd (A : List (K × V)) (k : K) (v : V) (Pu : List K) : StepFacts A (A.map (setVal k v)) [] Pu [k] := by
+  refine ⟨?_, ?_, filter_setVal k v A⟩
+  · rw [map_fst_setVal]; exact List.filter_sublist
+  · rw [map_fst_setVal]; exact List.filter_sublist
+
+theorem facts_trans {A A1 A2 : List (K × V)} {D1 D2 P1 P2 T1 T2 : List K}
+    (h1 : StepFacts A A1 D1 P1 T1) (h2 : StepFacts A1 A2 D2 P2 T2) :
+    StepFacts A A2 (D1 ++ D2) (P1 ++ P2) (T1 ++ T2) := by
+  refine ⟨?_, ?_, ?_⟩
+  · rw [filter_notIn_append]
+    exact (h1.surv.filter _).trans h2.surv
+  · have : (A2.map (·.1)).filter (notIn (P1 ++ P2)) = ((A2.map (·.1)).filter (notIn P2)).filter (notIn P1) := by
+      rw [List.filter_filter]; congr 1; funext x; simp [notIn, not_or]
+    rw [this]
+    exact (h2.orig.filter _).trans h1.orig
+  · rw [filter_keyNotIn_append, filter_keyNotIn_append, filter_keyNotIn_comm, h2.same, filter_keyNotIn_comm, h1.same]
+
+end Facts
+
 end
 end IwModel.Kv
